@@ -27,6 +27,8 @@ def main():
         props = meta.get("breaks", [sid])
         prop = props[0]
         r1 = first_round(meta, prop)
+        if r1 is None and meta.get("rounds"):
+            r1 = meta["rounds"][0]["results"].get(prop, {}).get("exit")
         last = None
         det_by = []
         for rd in meta.get("rounds", []):
@@ -41,6 +43,7 @@ def main():
         rows.append("| %s | %s | %s | %s | %s | %s |" % (
             sid, s.get("change", ""), s.get("needs", ""),
             {1: "detected", 0: "missed", None: "-"}.get(r1, "exit %s" % r1),
+            ("detected by " + ", ".join(det_by)) if (last != 1 and det_by and prop not in det_by) else
             {1: "detected", 0: "MISSED", None: ("detected (first evaluation, not re-run)" if r1 == 1 else "(not re-run)")}.get(last, "exit %s" % last),
             s.get("by", "")))
     print("| id | the change | what it needs to manifest | first evaluation | after strengthening (final tree) | what catches it |")
